@@ -69,13 +69,13 @@ PROPS = {
                 "sub-goal through a longer path, max_depth = exact height needed -2..+1. Observed per query: provable, the caller's facts before and after. non-trivial = provable A quarter of the cases use string values that contain operator characters (a goal `F == \"a>=b\"`).",
         "level_text": "Theorems (Coq, every rule set / goal / depth / facts): whenever the depth-first search with execution - at the root or at any sub-goal - reports a goal proven, the goal comparison holds in the facts "
                 "it hands back; the same for iterative deepening; and for Horn-style sets every result stays within EVERY closed set of atoms that covers the facts asked on - a proven goal is satisfied by an atom of the forward closure. BOUNDED COMPLETENESS is a theorem too (Proofs/BackwardCompleteProofs.v, C09_bounded_completeness_partial): "
-                "for every Horn instance of any size - conjunctive conditions of positive comparisons against boolean / string / null literals, every field single-valued over facts and conclusions - a goal that holds at level h <= max_depth of the bounded "
+                "for every Horn instance of any size - conjunctive conditions of positive comparisons against boolean / string / null literals, integer literals that survive the code's re-parsing through f64 (a decidable condition, true below 2^53) on integer-valued fields, float literals on non-integer fields; every field single-valued over facts and conclusions - a goal that holds at level h <= max_depth of the bounded "
                 "forward derivation is reported provable by the depth-first search, whatever decoys, dead ends, shared sub-goals and cycles there are (induction on the level; failed candidates hand the facts on unchanged, successful sub-proofs only extend them; the "
                 "recursion fuel of the model provably suffices). The model of the search (candidate selection, recursive proof of unmet conditions, re-execution, rollback of failed candidates) predicts the verdict of "
                 "every single depth-first and iterative query (and of whole histories on deterministic rule sets) and is compared with the code; the Coq-defined monitor checks on the implementation's observations, for all three strategies: provable -> "
                 "goal true in the facts handed back AND in the many-valued forward closure of the rules on the facts asked on; (depth-first, conjunctive, monotone instances) goal at level max_depth of the bounded "
                 "forward derivation -> provable; verdict = verdict of a fresh search on the same facts.",
-        "level_note": "Partial: the completeness theorem does not cover integer / float literals in rule conditions (they are re-parsed through f64 by the code; monitored only); breadth-first search depends on hash-set iteration order and is monitored only. Trusted: Coq kernel; model of "
+        "level_note": "Partial: the completeness theorem excludes Or and mixed integer / float comparisons in rule conditions (monitored only); breadth-first search depends on hash-set iteration order and is monitored only. Trusted: Coq kernel; model of "
                 "search.rs / rule_executor.rs / condition_evaluator.rs / conclusion_index.rs after fixes 692df85 047f79f ab15463 dfacdc7 fe5aaf4 f980bee (Horn core: field-op-literal conditions, literal assignments, flat fact "
                 "names; no negated goals, TMS/RETE attachment, functions or multifield conditions); harness; extraction. Axioms: none.",
         "trusted_base": ["std HashSet iteration order of the root candidate set: the model predicts verdicts only where they cannot depend on it"],
